@@ -75,7 +75,7 @@ def main():
                 #    err_codes = [(x[1]) for x in src.pop_errors()]
                 #    if 'SEG1' in err_codes:
                 fd_out.write(seg_data.format() + eol)
-            if not args.eol:
+            if not args.eol and args.inplace and not args.outputfile:
                 fd_out.write('\n')
 
             fd_out.seek(0)
@@ -90,6 +90,15 @@ def main():
                         fd_orig.write(fd_out.read())
                 else:
                     sys.stdout.write(fd_out.read())
+                    files_written += 1
+    if not args.eol and files_written:
+        # one closing line feed for the whole output: one after every input file
+        # would be dropped again when the output itself is normalised
+        if args.outputfile:
+            with open(args.outputfile, mode='a', encoding='ascii', newline='') as fd_dest:
+                fd_dest.write('\n')
+        else:
+            sys.stdout.write('\n')
     return True
 
 if __name__ == '__main__':
